@@ -55,6 +55,16 @@ def pmap(fn, items, procs):
         return pool.map(fn, items, chunksize=max(1, len(items) // (procs * 8)))
 
 
+def pmap_nd(fn, items, procs):
+    """like pmap, but with non-daemonic workers (they may start processes themselves)"""
+    if procs <= 1 or len(items) < 2:
+        return [fn(x) for x in items]
+    from concurrent.futures import ProcessPoolExecutor
+
+    with ProcessPoolExecutor(max_workers=procs, mp_context=mp.get_context("fork"), initializer=_pool_init) as ex:
+        return list(ex.map(fn, items, chunksize=1))
+
+
 def report_violation(prop, payload, suffix=""):
     path = core.write_replay(prop, payload)
     print(f"VIOLATION property={prop} replay={path}{suffix}")
